@@ -27,6 +27,9 @@ type siteInfo struct {
 
 var siteTable = map[int]siteInfo{}
 
+// maxKeys bounds the per-worker set used to count distinct cases (memory).
+const maxKeys = 3000000
+
 type worldDef struct {
 	gen func(seed uint64, tier string) (*Scenario, *Outcome) // scenario + outcome of preparation (may already violate)
 	run func(sc *Scenario) *Outcome
@@ -270,12 +273,18 @@ func main() {
 		}
 		if o.Nontrivial {
 			sum.Nontrivial++
-			if len(o.Keys) > 0 {
-				for _, k := range o.Keys {
-					keys[k] = struct{}{}
+			// the set of distinct cases is kept up to a memory bound; beyond it the
+			// count is a lower bound (reported as such)
+			if len(keys) < maxKeys {
+				if len(o.Keys) > 0 {
+					for _, k := range o.Keys {
+						keys[k] = struct{}{}
+					}
+				} else {
+					keys[digest64(sc.Digest())] = struct{}{}
 				}
 			} else {
-				keys[digest64(sc.Digest())] = struct{}{}
+				sum.Counters["cases_beyond_distinctness_bound"] += len(o.Keys) + 1
 			}
 		}
 		if o.Rep != nil && o.Rep.Switches > 0 && !scheds[o.Rep.Sched] {
